@@ -734,6 +734,7 @@ func (ex *Exec) loadStruct(st *State, ref string, ty types.Type) Val {
 }
 
 func (ex *Exec) loadElem(st *State, sl Val, idx string) Val {
+	ex.noteIx(idx)
 	et := elemGoType(sl.Go)
 	m := ex.heapGet(st, ex.memKey(sl.S.Elem), ex.w.memSort(sl.S.Elem), et)
 	v := Val{T: sSel(sSel(m, fmt.Sprintf("(s_arr %s)", sl.T)), fmt.Sprintf("(+ (s_off %s) %s)", sl.T, idx)), S: sl.S.Elem, Go: et}
@@ -758,6 +759,7 @@ func elemGoType(t types.Type) types.Type {
 }
 
 func (ex *Exec) storeElem(st *State, sl Val, idx string, v Val) {
+	ex.noteIx(idx)
 	key := ex.memKey(sl.S.Elem)
 	ms := ex.w.memSort(sl.S.Elem)
 	m := ex.heapGet(st, key, ms)
@@ -848,7 +850,7 @@ func (ex *Exec) rangeStmt(st *State, s *ast.RangeStmt, label string, k func(*Sta
 		eval(st, s.X, func(st *State, sl Val) {
 			fr := st.frame
 			// hidden index variable
-			idxObj := types.NewVar(s.Pos(), nil, "$i"+fmt.Sprint(ex.loopOrdinal(fr, s)), types.Typ[types.Int])
+			idxObj := types.NewVar(s.Pos(), nil, "idx"+fmt.Sprint(ex.loopOrdinal(fr, s)), types.Typ[types.Int])
 			ex.declare(st, idxObj, Val{T: "0", S: sInt, Go: types.Typ[types.Int]})
 			n := fmt.Sprintf("(s_len %s)", sl.T)
 			nT := ex.w.define("rangelen", sInt, n)
@@ -940,24 +942,34 @@ func (ex *Exec) loop(st *State, lp *loopParts, k func(*State)) {
 	if fr.fi != ex.top {
 		lname = fname + "." + lname
 	}
-	evalInvs := func(st *State) ([]string, []*Clause) {
+	var invIx [][]string
+	evalInvs := func(st *State, asGoal bool) ([]string, []*Clause) {
 		var ts []string
 		var cs []*Clause
+		invIx = nil
 		if lp.autoInvs != nil {
 			for _, a := range lp.autoInvs(st) {
 				ts = append(ts, a)
 				cs = append(cs, nil)
+				invIx = append(invIx, nil)
 			}
 		}
 		env := ex.specEnvFor(st, fr.fi)
 		for _, inv := range spec.Invs {
-			ts = append(ts, env.boolTerm(inv.E))
+			if asGoal {
+				ex.goalIx = nil
+				ts = append(ts, env.goal(inv.E))
+				invIx = append(invIx, ex.goalIx)
+				ex.goalIx = nil
+			} else {
+				ts = append(ts, env.boolTerm(inv.E))
+			}
 			cs = append(cs, inv)
 		}
 		return ts, cs
 	}
 	// 1. invariant holds on entry
-	ts, cs := evalInvs(st)
+	ts, cs := evalInvs(st, true)
 	for i, t := range ts {
 		desc := "automatic range invariant"
 		var props []string
@@ -965,6 +977,7 @@ func (ex *Exec) loop(st *State, lp *loopParts, k func(*State)) {
 			desc = cs[i].Src
 			props = cs[i].Props
 		}
+		ex.goalIx = invIx[i]
 		ex.oblige(st, lname+".entry", props, t, desc, lp.stmt.Pos())
 	}
 	// 2. havoc everything the loop may write
@@ -1001,7 +1014,7 @@ func (ex *Exec) loop(st *State, lp *loopParts, k func(*State)) {
 			}
 		}
 	}
-	ts, _ = evalInvs(st)
+	ts, _ = evalInvs(st, false)
 	for _, t := range ts {
 		st.assume(t)
 	}
@@ -1011,7 +1024,7 @@ func (ex *Exec) loop(st *State, lp *loopParts, k func(*State)) {
 		for _, g := range spec.Ghosts {
 			env.ghostUpdate(g)
 		}
-		ts, cs := evalInvs(st)
+		ts, cs := evalInvs(st, true)
 		for i, t := range ts {
 			desc := "automatic range invariant"
 			var props []string
@@ -1019,6 +1032,7 @@ func (ex *Exec) loop(st *State, lp *loopParts, k func(*State)) {
 				desc = cs[i].Src
 				props = cs[i].Props
 			}
+			ex.goalIx = invIx[i]
 			ex.oblige(st, lname+".preserve", props, t, desc, lp.stmt.Pos())
 		}
 	}
